@@ -45,8 +45,16 @@ macro_rules! pb {
     };
 }
 
+// the iterator forms of + and *: Sum / Product over owned and over borrowed items (integer/src/iter.rs)
+macro_rules! fold_forms {
+    ($outs:expr, none, $x:expr, $y:expr, $t:ty, $enc:expr) => {};
+    ($outs:expr, $fold:ident, $x:expr, $y:expr, $t:ty, $enc:expr) => {{
+        $outs.push(concat!(stringify!($fold), ":v"), guarded(|| $enc(&vec![$x.clone(), $y.clone()].into_iter().$fold::<$t>())));
+        $outs.push(concat!(stringify!($fold), ":r"), guarded(|| $enc(&[$x.clone(), $y.clone()].iter().$fold::<$t>())));
+    }};
+}
 macro_rules! ring_op {
-    ($name:ident, $op:tt, $opa:tt) => {
+    ($name:ident, $op:tt, $opa:tt, $fold:ident) => {
         /// all forms of one ring operator for operands (sa, a) (sb, b); lt/rt in {"U","I"}
         pub fn $name(lt: &str, rt: &str, a: &IBig, b: &IBig) -> Value {
             let mut outs = Outs::new();
@@ -57,6 +65,7 @@ macro_rules! ring_op {
                     let (x, y) = (ubig_from_bytes(&ma), ubig_from_bytes(&mb));
                     forms_binop!(outs, "", x, y, $op, eu);
                     forms_assign!(outs, "", x, y, $opa, eu);
+                    fold_forms!(outs, $fold, x, y, UBig, eu);
                     if let Some(v) = small_mag(&mb) {
                         with_unsigned_prims!(v, bp, outs, x, $op, $opa, eu);
                     }
@@ -68,6 +77,7 @@ macro_rules! ring_op {
                     let (x, y) = (a.clone(), b.clone());
                     forms_binop!(outs, "", x, y, $op, ei);
                     forms_assign!(outs, "", x, y, $opa, ei);
+                    fold_forms!(outs, $fold, x, y, IBig, ei);
                     if !sb {
                         if let Some(v) = small_mag(&mb) {
                             with_unsigned_prims!(v, bp, outs, x, $op, $opa, ei);
@@ -100,9 +110,9 @@ macro_rules! ring_op {
         }
     };
 }
-ring_op!(forms_add, +, +=);
-ring_op!(forms_sub, -, -=);
-ring_op!(forms_mul, *, *=);
+ring_op!(forms_add, +, +=, sum);
+ring_op!(forms_sub, -, -=, none);
+ring_op!(forms_mul, *, *=, product);
 
 pub fn run_case(log: &mut Log, op: &str, lt: &str, rt: &str, a: &IBig, b: &IBig, n: usize, src: &str) {
     // an unsigned operand slot always receives the magnitude
